@@ -14,11 +14,12 @@ from xknx.telegram.apci import GroupValueResponse, GroupValueWrite
 
 
 def wire_valid(p):
-    """A payload the APCI encoder can put on the wire: 6 bit value, or 1..14 octets 0..255 each."""
+    """A payload that can be put on the wire: 6 bit value, or 1..253 octets 0..255 each (APCI octet + data
+    fit the 254 octets of one frame, C14)."""
     if isinstance(p, DPTBinary):
         return isinstance(p.value, int) and 0 <= p.value <= 63
     if isinstance(p, DPTArray):
-        return 1 <= len(p.value) <= 14 and all(isinstance(o, int) and 0 <= o <= 255 for o in p.value)
+        return 1 <= len(p.value) <= 253 and all(isinstance(o, int) and 0 <= o <= 255 for o in p.value)
     return False
 
 
@@ -55,10 +56,11 @@ def scaled_values_are_refused_or_wire_valid(rv, v, response):
     assert wire_valid(q[0].payload.value) and len(q[0].payload.value.value) == 1
 
 
-@lemma("C11", params=dict(v=Choice(Int(-5, 300), TupleOf(Int(-5, 300)), TupleOf(Int(-5, 300), Int(-5, 300)), ListOf(Int(-5, 300), Int(-5, 300), Int(-5, 300)), Bytes(min_len=1, max_len=3), Float(lo=-5.0, hi=300.0)), response=Bool()))
+@lemma("C11", params=dict(v=Choice(Int(-5, 300), TupleOf(), ListOf(), TupleOf(Int(-5, 300)), TupleOf(Int(-5, 300), Int(-5, 300)), ListOf(Int(-5, 300), Int(-5, 300), Int(-5, 300)), Bytes(min_len=0, max_len=3), Bytes(min_len=252, max_len=256), Float(lo=-5.0, hi=300.0), Obj(DPTArray, value=TupleOf()), Obj(DPTArray, value=TupleOf(Int(-5, 300), Int(-5, 300))), Obj(DPTArray, value=TupleOf(Float(lo=0.0, hi=2.0))), Obj(DPTBinary, value=Int(0, 63))), response=Bool()), max_unroll=300)
 def raw_helper_values_are_refused_or_wire_valid(v, response):
     """group_value_write / group_value_response without a value type (the MCP write tool's raw mode): an
-    int becomes the 6 bit form, a tuple / list / bytes the octet form - or ConversionError and nothing is
+    int becomes the 6 bit form, a tuple / list / bytes (also empty, also longer than a frame) or a
+    pre-built DPTArray (also with octets that are none) the octet form - or ConversionError and nothing is
     queued; a queued payload is always wire-valid."""
     xk = World()
     xk.telegrams = RecQueue()
@@ -116,3 +118,199 @@ def scaled_transcoders_are_refused_or_wire_valid(T, v):
     except ConversionError:
         return
     assert wire_valid(p) and len(p.value) == 1
+
+
+from xknx.dpt import DPTColorRGB  # noqa: E402
+from xknx.dpt.dpt_232 import RGBColor  # noqa: E402
+
+
+def _any_payload(cls, value):
+    """Contract of a complex type's own _to_knx: some payload object - the fields of the value are not
+    type checked, so its octets may be anything (C08 decides what they are for valid values)."""
+    return ghost("payload")[0]
+
+
+@lemma("C11", params=dict(p=Choice(Obj(DPTArray, value=TupleOf(Choice(Int(-5, 300), Float(lo=0.0, hi=300.0)), Int(-5, 300), Choice(Int(-5, 300), Float(lo=0.0, hi=300.0)))), Obj(DPTArray, value=TupleOf(Int(0, 255))), Obj(DPTBinary, value=Int(0, 63)))), stubs=[(DPTColorRGB, "_to_knx", classmethod(_any_payload))])
+def complex_transcoders_never_hand_out_invalid_octets(p):
+    """DPTComplex.to_knx (final: the entry of every structured datapoint type - colours, times, dates ...):
+    whatever the type's own encoder produced, the caller gets a payload whose octets are integers 0..255,
+    or ConversionError."""
+    ghost("payload").append(p)
+    try:
+        r = DPTColorRGB.to_knx(RGBColor(1, 2, 3))
+    except ConversionError:
+        return
+    assert r is p and wire_valid(r)
+
+
+# ------------------------------------------------------------------ bounded stand-in: every datapoint type, remote
+# value class and multi-telegram device setter with values of every Python kind (real code, natively)
+
+import dataclasses  # noqa: E402
+import enum  # noqa: E402
+import inspect  # noqa: E402
+
+from pyvc.api import standin  # noqa: E402
+
+_BATTERY = [0, 1, -1, 2, 63, 64, 127, 128, 255, 256, -128, -129, 65535, 65536, -32768, -32769, 2**31, 2**32, -(2**31) - 1, 2**63, 2**64, 0.5, 1.5, -0.5, 1.0, 255.0, 1e10, -1e10, 1e40, float("inf"), float("-inf"), float("nan"), True, False, None, "", "a", "1", "abc" * 10, b"", b"\x01", [], [1], [1, 2, 3], (), (300,), (1.0, 2, 3), (1, 2, 3), (1, 2, 3, 4), ((0.5, 0.5), 100), {}, {"a": 1}, object()]
+_FIELD_VALUES = (1.5, 1.0, 0.0, -1, 256, 65536, 2**40, None, "x", float("nan"), float("inf"), True, [1])
+
+
+def _all_dpt_classes():
+    from xknx.dpt import DPTBase
+
+    return sorted(DPTBase.dpt_class_tree(), key=lambda c: c.__name__)
+
+
+def _all_remote_value_classes():
+    import xknx.devices  # noqa: F401  (defines the device-local remote values)
+
+    def subs(c):
+        for s in c.__subclasses__():
+            yield s
+            yield from subs(s)
+
+    return sorted({c for c in subs(RemoteValue) if not inspect.isabstract(c) and not c.__name__.startswith("_")}, key=lambda c: c.__name__)
+
+
+def _type_cases(tier):
+    for i in range(len(_all_dpt_classes())):
+        yield ("dpt", i)
+    for i in range(len(_all_remote_value_classes())):
+        yield ("remote_value", i)
+    yield ("light", 0)
+
+
+def _structured_values(sample):
+    out = []
+    if isinstance(sample, enum.Enum):
+        out += list(type(sample))
+    if dataclasses.is_dataclass(sample) and not isinstance(sample, type):
+        out.append(sample)
+        for f in dataclasses.fields(sample):
+            for v in _FIELD_VALUES:
+                try:
+                    out.append(dataclasses.replace(sample, **{f.name: v}))
+                except Exception:  # noqa: BLE001  a dataclass refusing the field in __post_init__ is a refusal
+                    pass
+        try:
+            d = sample.as_dict()
+        except Exception:  # noqa: BLE001
+            d = None
+        if isinstance(d, dict):
+            out.append(d)
+            for k in d:
+                for v in (1.5, None, "x", 2**40, [1]):
+                    out.append({**d, k: v})
+                out.append({kk: vv for kk, vv in d.items() if kk != k})
+    return out
+
+
+def _drain_checked(xknx, what):
+    from xknx.cemi import CEMIFrame, CEMILData, CEMIMessageCode
+
+    n = 0
+    while not xknx.telegrams.empty():
+        t = xknx.telegrams.get_nowait()
+        n += 1
+        assert wire_valid(t.payload.value), (what, "queued a payload that is not wire-valid", t.payload.value.value)
+        CEMIFrame(code=CEMIMessageCode.L_DATA_REQ, data=CEMILData.init_from_telegram(t, src_addr=IndividualAddress(1))).to_knx()
+    return n
+
+
+@standin("C11", cases=_type_cases, kind="enum-native", exhaustive=False, bound="every concrete datapoint type (230) through group_value_write and group_value_response, every concrete RemoteValue class (with value types / ranges / modes / payload lengths where the constructor asks for one) through set(), and Light.set_color / set_hs_color with individual colour addresses: a fixed battery of 53 values of every Python kind (integers around every octet/word boundary, floats incl. integral ones, nan, infinities, bool, None, str, bytes, lists, tuples, dicts, object()) plus, for structured types, the decoded all-zero value with each field replaced by 13 values and its dict form with fields replaced / removed; a call either raises ConversionError with nothing queued or queues telegrams that serialize into a cEMI frame")
+def every_type_refuses_at_the_call_or_queues_a_serializable_telegram(kind, i):
+    import asyncio
+
+    from xknx import XKNX
+
+    async def go():
+        xknx = XKNX()
+        if kind == "dpt":
+            c = _all_dpt_classes()[i]
+            vals = list(_BATTERY)
+            for sample_payload in (DPTBinary(0), DPTArray((0,) * (c.payload_length or 1))):
+                try:  # only to obtain a structured sample value; decoding is C07's subject
+                    vals += _structured_values(c.from_knx(sample_payload))
+                except Exception:  # noqa: BLE001
+                    pass
+            for fn in (gc.group_value_write, gc.group_value_response):
+                for v in vals:
+                    try:
+                        fn(xknx, "1/2/3", v, value_type=c)
+                    except ConversionError:
+                        assert xknx.telegrams.empty(), (c.__name__, v, "refused but queued")
+                        continue
+                    assert _drain_checked(xknx, (c.__name__, repr(v))) == 1
+        elif kind == "remote_value":
+            c = _all_remote_value_classes()[i]
+            params = inspect.signature(c.__init__).parameters
+            variants = [{}]
+            if "value_type" in params:
+                variants = [{"value_type": vt} for vt in ("temperature", "percent", "pulse_2byte", "string", "color_rgb", "1byte_unsigned", "time", "latin_1")]
+            if "range_from" in params:
+                variants = [{}, {"range_from": 100, "range_to": 0}, {"range_from": -5, "range_to": 7}]
+            if "setpoint_shift_mode" in params:
+                from xknx.remote_value.remote_value_setpoint_shift import SetpointShiftMode
+
+                variants = [{"setpoint_shift_mode": m} for m in SetpointShiftMode]
+            if "payload_length" in params:
+                variants = [{"payload_length": n} for n in (0, 1, 2, 4)]
+            if "climate_mode_type" in params:
+                variants = [{"climate_mode_type": m} for m in c.ClimateModeType]
+            if "operation_mode" in params:
+                from xknx.dpt.dpt_20 import HVACOperationMode
+
+                variants = [{"operation_mode": HVACOperationMode.COMFORT}]
+            if "controller_mode" in params:
+                from xknx.dpt.dpt_20 import HVACControllerMode
+
+                variants = [{"controller_mode": HVACControllerMode.HEAT}]
+            built = 0
+            for kw in variants:
+                try:
+                    rv = c(xknx, group_address="1/2/3", **kw)
+                except (ConversionError, TypeError):
+                    continue  # this class does not take that value type / needs more configuration
+                built += 1
+                vals = list(_BATTERY)
+                dpt = getattr(rv, "dpt_class", None)
+                if dpt is not None and dpt.payload_length:
+                    try:
+                        vals += _structured_values(rv.from_knx(DPTArray((0,) * dpt.payload_length)))
+                    except Exception:  # noqa: BLE001
+                        pass
+                for v in vals:
+                    try:
+                        rv.set(v)
+                    except ConversionError:
+                        assert xknx.telegrams.empty(), (c.__name__, kw, v, "refused but queued")
+                        continue
+                    _drain_checked(xknx, (c.__name__, kw, repr(v)))
+            ghost("built").append(built)
+        else:
+            from xknx.devices import Light
+
+            ind = Light(xknx, "l", group_address_switch_red="1/0/1", group_address_brightness_red="1/0/2", group_address_switch_green="1/0/3", group_address_brightness_green="1/0/4", group_address_switch_blue="1/0/5", group_address_brightness_blue="1/0/6", group_address_switch_white="1/0/7", group_address_brightness_white="1/1/0")
+            hs = Light(xknx, "h", group_address_switch="1/1/1", group_address_hue="1/1/5", group_address_saturation="1/1/6")
+            comps = (0, 255, 256, -1, 1.5, None, "x", float("nan"))
+            for r in comps:
+                for g in comps:
+                    for b in comps:
+                        for w in (None, 0, 300, "x"):
+                            try:
+                                await ind.set_color((r, g, b), w)
+                            except ConversionError:
+                                assert xknx.telegrams.empty(), ("Light.set_color", (r, g, b), w, "refused but queued")
+                                continue
+                            assert _drain_checked(xknx, ("Light.set_color", (r, g, b), w)) == (3 if w is None else 4)
+            for h in (0, 360, 361, -1, None, "x", float("nan")):
+                for s_ in (0, 100, 101, -1, None, "x", float("inf")):
+                    try:
+                        await hs.set_hs_color((h, s_))
+                    except ConversionError:
+                        assert xknx.telegrams.empty(), ("Light.set_hs_color", (h, s_), "refused but queued")
+                        continue
+                    assert _drain_checked(xknx, ("Light.set_hs_color", (h, s_))) >= 1
+
+    asyncio.run(go())
